@@ -18,7 +18,7 @@ func vfH_C06_Faithful() {
 	vfSet("preempt", vfParam("preempt", 100))
 	vfBegin()
 	other := func() {
-		switch vfChoice(4) {
+		switch vfChoice(vfParam("others", 4)) {
 		case 1:
 			mon.set(c, 2, 1, 0)
 		case 2:
@@ -38,10 +38,12 @@ func vfH_C06_Faithful() {
 		g, found := c.Get(k)
 		vfAssert(vfImplies(ok, found && g.id == v.id), "C06.set-visible-after-wait")
 		vfAssert(vfImplies(!ok, !found), "C06.refused-set-not-stored")
-		other()
-		c.Wait()
-		g, found = c.Get(k)
-		vfAssert(vfImplies(ok, found && g.id == v.id), "C06.stays-retrievable")
+		if vfParam("second", 1) == 1 {
+			other()
+			c.Wait()
+			g, found = c.Get(k)
+			vfAssert(vfImplies(ok, found && g.id == v.id), "C06.stays-retrievable")
+		}
 		vfReach("new")
 	case 1:
 		// overwrite of a resident key: visible immediately, and still there after Wait
